@@ -175,6 +175,13 @@ def const_float(op):
 def const_str(op):
     if op[0] == "c" and op[1] == "s":
         return op[2]
+    if op[0] == "c" and op[1] == "o" and len(op) > 3 and op[2] in ("&str", "&'static str") and op[3].startswith('"') and op[3].endswith('"'):
+        # constants rustc prints rather than exposes as a slice (e.g. patterns of a `match` on &str)
+        body = op[3][1:-1]
+        try:
+            return bytes(body, "utf-8").decode("unicode_escape") if "\\" in body else body
+        except Exception:
+            return body
     return None
 
 
